@@ -11,6 +11,9 @@ import z3
 from .values import (NDArr, Store, Obj, ClsRef, FuncRef, Bound, Closure, ModRef, Builtin, Opaque, is_sym, to_z3,
                      as_int_term, concrete_int, new_array, const_array)
 
+from .symlist import SymList as _SymList  # noqa: E402
+from . import symlist as _symlist  # noqa: E402
+
 USED = set()  # names of the [A] models exercised by the current run (reported in the evidence)
 
 
@@ -129,10 +132,20 @@ def interp_raise(interp, name, msg=""):
 def binop(interp, op, a, b):
     from .interp import Undecided
 
+    if isinstance(op, ast.MatMult):
+        # a task may supply an abstract matrix algebra for `@` (opt-in hook; without it the array model below applies)
+        h = interp.hooks.get("matmul")
+        if h:
+            r = h(interp, a, b)
+            if r is not NotImplemented:
+                return r
     if isinstance(a, NDArr) or isinstance(b, NDArr):
         return array_binop(interp, op, a, b)
     if isinstance(a, list) and isinstance(b, list) and isinstance(op, ast.Add):
         return a + b
+    if isinstance(op, ast.Add) and (isinstance(a, _SymList) or isinstance(b, _SymList)) and \
+            isinstance(a, (list, _SymList)) and isinstance(b, (list, _SymList)):
+        return _symlist.concat(a, b)
     if isinstance(a, tuple) and isinstance(b, tuple) and isinstance(op, ast.Add):
         return a + b
     if isinstance(a, list) and isinstance(op, ast.Mult):
@@ -266,7 +279,7 @@ def matmul(interp, a, b):
             raise Undecided("matrix product with a symbolic inner dimension and no support hint (hook matmul_support)")
         from lemmas.matsum import closed_form
 
-        used("L2 SUM_SUPPORT2 (lemmas/matsum.py): a sum whose terms vanish off {p,q} equals the terms at p and q")
+        used("matrix-product closed form via L2 SUM_SUPPORT2 (NOT assumed: proved by induction every run, obligations L2.sum_support2.*; its premise is the obligation matmul.support#k of the calling task)")
         path = interp.path
         i, k, j = path.fresh("mi"), path.fresh("mk"), path.fresh("mj")
         pts = list(sup(i, k))
@@ -299,6 +312,13 @@ def compare(interp, op, a, b):
         if isinstance(a, (int, str)) and isinstance(b, (int, str)) and not isinstance(a, bool):
             r = a == b
         return r if isinstance(op, ast.Is) else not r
+    from .symgraph import Templ, eq_term
+
+    if (isinstance(a, Templ) or isinstance(b, Templ)) and isinstance(op, (ast.Eq, ast.NotEq)):
+        r = eq_term(interp, a, b)
+        if isinstance(op, ast.NotEq):
+            return z3.Not(r) if not isinstance(r, bool) else (not r)
+        return r
     if isinstance(op, (ast.In, ast.NotIn)):
         r = contains(interp, b, a)
         if isinstance(op, ast.NotIn):
@@ -328,6 +348,17 @@ def compare(interp, op, a, b):
             if isinstance(op, ast.NotEq):
                 return True
             raise Undecided("ordering between symbolic number and non-number")
+        for u, v, flip in ((a, b, False), (b, a, True)):
+            # a symbolic (finite, S3) number against +-inf
+            if isinstance(v, float) and v in (float("inf"), float("-inf")) and is_sym(u):
+                pos = v > 0
+                if isinstance(op, ast.Eq):
+                    return False
+                if isinstance(op, ast.NotEq):
+                    return True
+                less = isinstance(op, (ast.Lt, ast.LtE))  # u < v ?
+                if isinstance(op, (ast.Lt, ast.LtE, ast.Gt, ast.GtE)):
+                    return (less == pos) if not flip else (less != pos)
         x, y = to_z3(a), to_z3(b)
         if z3.is_bool(x) != z3.is_bool(y):
             x, y = as_int_term(x), as_int_term(y)
@@ -373,6 +404,44 @@ def compare(interp, op, a, b):
     raise Undecided("compare " + type(op).__name__)
 
 
+def _has_sym(v):
+    from .symgraph import Templ
+
+    if is_sym(v) or isinstance(v, Templ):
+        return True
+    if isinstance(v, (tuple, list)):
+        return any(_has_sym(x) for x in v)
+    return False
+
+
+def _less_term(interp, a, b):
+    """a < b for ints / strings / tuples (lexicographic) -> bool or z3 Bool"""
+    from .interp import Undecided
+
+    if isinstance(a, tuple) and isinstance(b, tuple):
+        if not a:
+            return bool(b)
+        if not b:
+            return False
+        lt = _less_term(interp, a[0], b[0])
+        eq = compare(interp, ast.Eq(), a[0], b[0])
+        rest = _less_term(interp, a[1:], b[1:])
+        if all(isinstance(x, bool) for x in (lt, eq, rest)):
+            return lt or (eq and rest)
+        tz = lambda x: z3.BoolVal(x) if isinstance(x, bool) else x
+        return z3.Or(tz(lt), z3.And(tz(eq), tz(rest)))
+    if is_sym(a) or is_sym(b):
+        return compare(interp, ast.Lt(), a, b)
+    if type(a) is type(b) or (isinstance(a, (int, float)) and isinstance(b, (int, float))):
+        return a < b
+    raise Undecided("ordering of mixed values")
+
+
+def _decide_less(interp, a, b):
+    r = _less_term(interp, a, b)
+    return r if isinstance(r, bool) else interp.path.decide(r)
+
+
 def contains(interp, container, item):
     from .interp import Undecided
 
@@ -390,7 +459,7 @@ def contains(interp, container, item):
                 return r
         raise Undecided("`in` on symbolic-length array")
     if isinstance(container, (list, tuple, set, frozenset)):
-        if not is_sym(item) and not any(is_sym(c) for c in container):
+        if not _has_sym(item) and not any(_has_sym(c) for c in container):
             return item in container
         parts = [compare(interp, ast.Eq(), item, c) for c in container]
         if all(isinstance(p, bool) for p in parts):
@@ -782,6 +851,10 @@ def value_attr(interp, obj, attr):
             return NDArr(obj.store, axes, (obj.shape[1], obj.shape[0]))
         if attr == "astype":
             def astype(interp_, typ=None, *a, **k):
+                if isinstance(typ, Builtin) and typ.name == "bool":
+                    used("ndarray.astype(bool) (copy; entry -> 1 if non-zero else 0)")
+                    rd_ = obj.reader()
+                    return new_array(obj.shape, lambda *i: z3.If(as_int_term(rd_(*i)) != 0, z3.IntVal(1), z3.IntVal(0)), "asbool")
                 used("ndarray.astype(int) (copy; identity on integer-valued contents, S2)")
                 return obj.snapshot()
             return Builtin("astype", astype)
@@ -792,7 +865,24 @@ def value_attr(interp, obj, attr):
                 return Builtin("flatten", lambda interp_: obj.snapshot())
         if attr == "trace":
             raise Undecided("ndarray.trace")
+        if attr == "reshape":
+            return Builtin("reshape", lambda interp_, *shape, **k: nd_reshape(interp_, obj, shape, k))
         raise Undecided(f"ndarray.{attr}")
+    if isinstance(obj, _symlist.SymDict):
+        if attr == "get":
+            b = Builtin("get", lambda interp_, k_, d_=None: _symlist.dict_lookup(interp_, obj, k_))
+            b.symdict_get_of = obj
+            return b
+        raise Undecided(f"dict.{attr} on a dict of symbolic size")
+    if isinstance(obj, _SymList):
+        if attr == "append":
+            def sapp(interp_, x):
+                interp_.note_write(obj, "append")
+                obj.append(x)
+            return Builtin("append", sapp)
+        if attr == "copy":
+            return Builtin("copy", lambda interp_: obj.copy())
+        raise Undecided(f"list.{attr} on a list of symbolic length")
     if isinstance(obj, list):
         if attr == "append":
             def app(interp_, x):
@@ -800,7 +890,10 @@ def value_attr(interp, obj, attr):
                 obj.append(x)
             return Builtin("append", app)
         if attr == "extend":
-            return Builtin("extend", lambda interp_, xs: obj.extend(interp_.iterate(xs)))
+            def ext(interp_, xs):
+                interp_.note_write(obj, "extend")
+                obj.extend(interp_.iterate(xs))
+            return Builtin("extend", ext)
         if attr == "reverse":
             def rev(interp_):
                 interp_.note_write(obj, "reverse")
@@ -808,12 +901,14 @@ def value_attr(interp, obj, attr):
             return Builtin("reverse", rev)
         if attr == "remove":
             def rem(interp_, x):
-                if is_sym(x) or any(is_sym(e) for e in obj):
+                if _has_sym(x) or any(_has_sym(e) for e in obj):
                     for k, e in enumerate(obj):
-                        if e is x:
+                        r = compare(interp_, ast.Eq(), e, x)
+                        if (r if isinstance(r, bool) else interp_.path.decide(r)):
+                            interp_.note_write(obj, "remove")
                             del obj[k]
                             return
-                    raise Undecided("list.remove of symbolic value")
+                    raise RaiseEx("ValueError", "list.remove(x): x not in list")
                 interp_.note_write(obj, "remove")
                 try:
                     obj.remove(x)
@@ -868,26 +963,40 @@ def value_attr(interp, obj, attr):
         if attr == "pop":
             def dpop(interp_, k, *d):
                 if k in obj:
+                    interp_.note_write(obj, "pop")
                     return obj.pop(k)
                 if d:
                     return d[0]
                 raise RaiseEx("KeyError", str(k))
             return Builtin("pop", dpop)
         if attr == "update":
-            return Builtin("update", lambda interp_, other: obj.update(other))
+            def dupd(interp_, other):
+                interp_.note_write(obj, "update")
+                obj.update(other)
+            return Builtin("update", dupd)
         if attr == "copy":
             return Builtin("copy", lambda interp_: dict(obj))
     if isinstance(obj, (set, frozenset)):
         if attr == "add":
-            return Builtin("add", lambda interp_, x: obj.add(x))
+            def sadd(interp_, x):
+                interp_.note_write(obj, "add")
+                obj.add(x)
+            return Builtin("add", sadd)
         if attr == "remove":
-            return Builtin("remove", lambda interp_, x: obj.remove(x))
+            def srem(interp_, x):
+                interp_.note_write(obj, "remove")
+                obj.remove(x)
+            return Builtin("remove", srem)
     if isinstance(obj, str):
         if attr in ("join", "format", "lower", "upper", "startswith", "endswith", "split", "strip", "replace"):
             def strm(interp_, *a):
                 if any(is_sym(x) for x in a):
                     raise Undecided("string method on symbolic")
                 a2 = [list(x) if isinstance(x, tuple) else x for x in a]
+                if attr == "join" and len(a2) == 1 and any(getattr(x, "__tokstr__", False) for x in interp_.iterate(a2[0])):
+                    from .tokstr import join as _tjoin
+
+                    return _tjoin(obj, interp_.iterate(a2[0]))
                 return getattr(obj, attr)(*a2)
             return Builtin(attr, strm)
     if isinstance(obj, tuple):
@@ -903,6 +1012,99 @@ def value_attr(interp, obj, attr):
     raise Undecided(f"attribute {attr} of {type(obj).__name__}")
 
 
+def nd_reshape(interp, arr, shape, kwargs=None):
+    """[A] ndarray.reshape (C order) -> a fresh array (copy; the accepted subset never writes through a reshaped view).
+    Row-major linear index L of the new position = linear index of the old one.  Accepted: every dimension except the
+    leading one concrete on both sides (so ravel/unravel are linear / division by constants); dimensions of size 1 are
+    ignored.  The element count must agree (obligation)."""
+    from .interp import Undecided
+
+    if kwargs:
+        raise Undecided("reshape with keyword arguments")
+    if len(shape) == 1 and isinstance(shape[0], (tuple, list)):
+        shape = tuple(shape[0])
+    shape = tuple(shape)
+    if any(concrete_int(s) is not None and concrete_int(s) < 0 for s in shape):
+        raise Undecided("reshape with -1")
+    used("ndarray.reshape (C order, copy)")
+
+    def strides(shp):
+        tail = [concrete_int(s) for s in shp[1:]]
+        if any(t is None for t in tail):
+            raise Undecided("reshape with a symbolic non-leading dimension")
+        st, acc = [], 1
+        for t in reversed(tail):
+            st.append(acc)
+            acc *= t
+        st.append(acc)
+        return list(reversed(st)), tail
+
+    st_new, tail_new = strides(shape)
+    st_old, tail_old = strides(arr.shape)
+
+    def size(shp):
+        t = to_z3(shp[0])
+        for s_ in shp[1:]:
+            t = t * to_z3(s_)
+        return t
+
+    eq = z3.simplify(size(shape) == size(arr.shape))
+    if z3.is_false(eq):
+        raise interp_raise(interp, "ValueError", "cannot reshape array")
+    if not z3.is_true(eq):
+        nm = interp.ob_name("reshape.size")
+        interp.path.oblige(nm, eq)
+        interp.path.assume(eq)
+    rd = arr.reader()
+
+    def elem(*idx):
+        L = z3.IntVal(0)
+        for i_, s_ in zip(idx, st_new):
+            L = L + to_z3(i_) * s_
+        old = []
+        for k_, s_ in enumerate(st_old):
+            q = L / s_ if s_ != 1 else L
+            if k_ > 0:
+                q = q % tail_old[k_ - 1] if tail_old[k_ - 1] != 1 else z3.IntVal(0)
+            old.append(z3.simplify(q))
+        return rd(*old)
+
+    return new_array(shape, elem, "reshape")
+
+
+def all_of_symlist(interp, lst):
+    """[A] all(l) for a list of symbolic length: a fresh Bool r with  r -> (forall m<len: l[m] truthy)  and
+    not r -> (0 <= w < len and l[w] falsy) for a fresh witness w (recorded in path.ghost['all_calls'])"""
+    used("all(list of symbolic length) = fresh Bool with its two-sided characterisation")
+    path = interp.path
+    r, w = path.fresh("all", "bool"), path.fresh("allw")
+    n = to_z3(lst.length)
+    c = path.counter.get("allq", 0)
+    path.counter["allq"] = c + 1
+    m = z3.Int(f"allq!{c}")
+    elem = lst.elem
+    path.assume(z3.Implies(r, z3.ForAll([m], z3.Implies(z3.And(m >= 0, m < n), as_int_term(elem(m)) != 0))))
+    path.assume(z3.Implies(z3.Not(r), z3.And(w >= 0, w < n, as_int_term(elem(w)) == 0)))
+    path.ghost.setdefault("all_calls", []).append(dict(result=r, witness=w, length=n, elem=elem))
+    return r
+
+
+def any_of_symlist(interp, lst):
+    """[A] any(l) for a list of symbolic length: fresh Bool r,  r -> (0 <= w < len and l[w] truthy),  not r -> all falsy"""
+    used("any(list of symbolic length) = fresh Bool with its two-sided characterisation")
+    path = interp.path
+    r, w = path.fresh("any", "bool"), path.fresh("anyw")
+    n = to_z3(lst.length)
+    c = path.counter.get("allq", 0)
+    path.counter["allq"] = c + 1
+    m = z3.Int(f"allq!{c}")
+    elem = lst.elem
+    path.assume(z3.Implies(z3.Not(r), z3.ForAll([m], z3.Implies(z3.And(m >= 0, m < n), as_int_term(elem(m)) == 0))))
+    path.assume(z3.Implies(r, z3.And(w >= 0, w < n, as_int_term(elem(w)) != 0)))
+    path.ghost.setdefault("any_calls", []).append(dict(result=r, witness=w, length=n, elem=elem))
+    return r
+
+
 # ------------------------------------------------------------------------------------------
 # Python builtins
 # ------------------------------------------------------------------------------------------
@@ -913,6 +1115,8 @@ def python_builtin(interp, name):
     def b_len(i, x):
         if isinstance(x, NDArr):
             return x.shape[0]
+        if isinstance(x, (_SymList, _symlist.SymDict)):
+            return x.length
         if isinstance(x, (list, tuple, dict, set, str, frozenset, range)):
             return len(x)
         h = i.hooks.get("len")
@@ -970,6 +1174,8 @@ def python_builtin(interp, name):
         raise Undecided("type() of " + type(obj).__name__)
 
     def b_list(i, x=()):
+        if isinstance(x, _SymList) and concrete_int(x.length) is None:
+            return x.copy()  # list(l) of a list of symbolic length: a fresh list with the same elements
         return list(i.iterate(x))
 
     def b_tuple(i, x=()):
@@ -1009,8 +1215,17 @@ def python_builtin(interp, name):
                 raise Undecided("sorted with symbolic keys")
             order = sorted(range(len(vals)), key=lambda t: keys[t], reverse=bool(reverse))
             return [vals[t] for t in order]
-        if any(is_sym(v) for v in vals):
-            raise Undecided("sorted of symbolic values")
+        if any(_has_sym(v) for v in vals):
+            if len(vals) > 4:
+                raise Undecided("sorted of more than 4 symbolic values")
+            used("sorted() of <= 4 symbolic ints/tuples: insertion sort with path forks on each comparison")
+            out = []
+            for v in vals:  # stable insertion sort; each comparison is decided by the path (fork)
+                k = len(out)
+                while k > 0 and _decide_less(i, v, out[k - 1]):
+                    k -= 1
+                out.insert(k, v)
+            return out[::-1] if reverse else out
         return sorted(vals, reverse=bool(reverse))
 
     def b_reversed(i, x):
@@ -1018,9 +1233,34 @@ def python_builtin(interp, name):
 
     def b_minmax(which):
         def f(i, *a, **k):
+            if len(a) == 1 and isinstance(a[0], _SymList) and not k:
+                lst = a[0]
+                return lst.get(_symlist.seq_extreme(i, lst.length, lst.get, which, "list"))
+            if len(a) == 1 and isinstance(a[0], _symlist.SymDict):
+                d, key = a[0], k.get("key")
+                if key is None:
+                    measure = d.key
+                elif isinstance(key, Builtin) and getattr(key, "symdict_get_of", None) is d:
+                    measure = d.val
+                else:
+                    raise Undecided(f"{which}() over a symbolic dict with an unsupported key function")
+                ix = _symlist.seq_extreme(i, d.length, measure, which, "dict")
+                kt = d.key(ix)
+                d.known[to_z3(kt).get_id()] = ix
+                return kt
             vals = list(a) if len(a) > 1 else i.iterate(a[0])
             if not vals:
                 raise RaiseEx("ValueError", f"{which}() arg is an empty sequence")
+            if k.get("key") is not None:
+                # min/max with key=: the FIRST element whose key is minimal/maximal (ties: first wins, like CPython);
+                # symbolic keys are compared by branching on the path
+                keys = [i.call(k["key"], [v], {}) for v in vals]
+                best = 0
+                for t in range(1, len(vals)):
+                    c = compare(i, ast.Lt() if which == "min" else ast.Gt(), keys[t], keys[best])
+                    if i.truth(c):
+                        best = t
+                return vals[best]
             if not any(is_sym(v) for v in vals):
                 return min(vals) if which == "min" else max(vals)
             r = to_z3(vals[0])
@@ -1043,12 +1283,16 @@ def python_builtin(interp, name):
         return abs(x)
 
     def b_all(i, x):
+        if isinstance(x, _SymList) and concrete_int(x.length) is None:
+            return all_of_symlist(i, x)
         vals = [i.truth_term(v) if is_sym(v) else bool(i.truth(v)) for v in i.iterate(x)]
         if all(isinstance(v, bool) for v in vals):
             return all(vals)
         return z3.And(*[to_z3(v) for v in vals])
 
     def b_any(i, x):
+        if isinstance(x, _SymList) and concrete_int(x.length) is None:
+            return any_of_symlist(i, x)
         vals = [i.truth_term(v) if is_sym(v) else bool(i.truth(v)) for v in i.iterate(x)]
         if all(isinstance(v, bool) for v in vals):
             return any(vals)
@@ -1101,7 +1345,26 @@ def python_builtin(interp, name):
             raise Undecided("round symbolic")
         return round(x) if nd is None else round(x, nd)
 
+    def b_issubclass(i, c, cls):
+        if not isinstance(c, ClsRef):
+            if isinstance(c, Obj):
+                raise RaiseEx("TypeError", "issubclass() arg 1 must be a class")
+            raise Undecided("issubclass of " + type(c).__name__)
+        cl = cls if isinstance(cls, tuple) else (cls,)
+        for b in cl:
+            if not isinstance(b, ClsRef):
+                raise Undecided("issubclass against " + repr(b))
+            if b in c.mro():
+                return True
+        return False
+
+    def b_map(i, f, *seqs):
+        used("map(f, xs) evaluated eagerly, in order (the mapped function is pure at every use)")
+        cols = [i.iterate(s) for s in seqs]
+        return [i.call(f, list(t), {}) for t in zip(*cols)]
+
     table = {
+        "issubclass": b_issubclass, "map": b_map,
         "len": b_len, "range": b_range, "int": b_int, "bool": b_bool, "isinstance": b_isinstance, "type": b_type,
         "list": b_list, "tuple": b_tuple, "set": b_set, "dict": b_dict, "enumerate": b_enumerate, "zip": b_zip,
         "sorted": b_sorted, "reversed": b_reversed, "min": b_minmax("min"), "max": b_minmax("max"), "sum": b_sum,
@@ -1196,7 +1459,7 @@ def external_attr(interp, mod: ModRef, attr):
         if attr == "deepcopy":
             return Builtin("deepcopy", _deepcopy)
         if attr == "copy":
-            return Builtin("copy", _deepcopy)
+            return Builtin("copy", _shallowcopy)
     if name == "scipy.linalg" and attr == "block_diag":
         return Builtin("block_diag", _block_diag)
     if name == "abc":
@@ -1233,6 +1496,11 @@ def external_attr(interp, mod: ModRef, attr):
 
         if attr in ("product", "combinations", "permutations"):
             def it(i, *a, **k):
+                if (attr == "combinations" and len(a) == 2 and not k and isinstance(a[0], _SymList)
+                        and concrete_int(a[0].length) is None and concrete_int(a[1]) == 2):
+                    # pairs of a list of symbolic length: only usable as the iterable of a `for` under a pair-loop contract
+                    used("itertools.combinations(l, 2) = (l[p], l[q]) for p < q in lexicographic order of (p, q)")
+                    return Opaque("combinations2", a[0])
                 args = [i.iterate(x) if not isinstance(x, int) else x for x in a]
                 kk = {key: concrete_int(v) for key, v in k.items()}
                 return [tuple(t) for t in getattr(itertools, attr)(*args, **kk)]
@@ -1243,6 +1511,24 @@ def external_attr(interp, mod: ModRef, attr):
         if r is not NotImplemented:
             return r
     raise Undecided(f"{name}.{attr} has no [A] model")
+
+
+def _shallowcopy(interp, v):
+    """copy.copy: a new outer object whose fields / items are the SAME objects as the original's"""
+    used("copy.copy = new outer object sharing the original's field/item objects")
+    if isinstance(v, NDArr):
+        return v.snapshot()
+    if isinstance(v, Obj):
+        r = Obj(v.cls)
+        r.fields.update(v.fields)
+        return r
+    if isinstance(v, list):
+        return list(v)
+    if isinstance(v, dict):
+        return dict(v)
+    if isinstance(v, set):
+        return set(v)
+    return v
 
 
 def _deepcopy(interp, v, memo=None):
@@ -1350,6 +1636,8 @@ def _np_array(interp, a, dtype=None):
     n = len(vals)
 
     def f1(k):
+        if isinstance(k, int) and not isinstance(k, bool) and 0 <= k < n:
+            return as_int_term(vals[k])  # concrete in-range index: same value as the If-chain below
         t = None
         for m in range(n - 1, -1, -1):
             e = as_int_term(vals[m])
@@ -1565,6 +1853,39 @@ def _np_nonzero(interp, a):
     raise Undecided("np.nonzero needs a theory hook")
 
 
+def array_equal_symbolic(interp, a, b):
+    """[A] np.array_equal on arrays with symbolic shapes: a fresh Bool r with
+         r     -> shapes agree and (forall idx in range: a[idx] == b[idx])
+         not r -> shapes differ or (w in range and a[w] != b[w])  for fresh witness indices w
+    (recorded in path.ghost['array_equal_calls'])"""
+    if a.ndim != b.ndim:
+        return False
+    used("np.array_equal on symbolic shapes = fresh Bool with its two-sided characterisation")
+    path = interp.path
+    r = path.fresh("aeq", "bool")
+    c = path.counter.get("aeqq", 0)
+    path.counter["aeqq"] = c + 1
+    q = [z3.Int(f"aeqq!{c}_{k}") for k in range(a.ndim)]
+    w = [path.fresh("aeqw") for _ in range(a.ndim)]
+    shp = z3.And(*[to_z3(s_) == to_z3(t_) for s_, t_ in zip(a.shape, b.shape)])
+    ra, rb = a.reader(), b.reader()
+
+    def inr(idx):
+        return z3.And(*[z3.And(i_ >= 0, i_ < to_z3(s_)) for i_, s_ in zip(idx, a.shape)])
+
+    def eq(idx):
+        x, y = as_int_term(ra(*idx)), as_int_term(rb(*idx))
+        if z3.is_real(x) != z3.is_real(y):
+            x = z3.ToReal(x) if z3.is_int(x) else x
+            y = z3.ToReal(y) if z3.is_int(y) else y
+        return x == y
+
+    path.assume(z3.Implies(r, z3.And(shp, z3.ForAll(q, z3.Implies(inr(q), eq(q))))))
+    path.assume(z3.Implies(z3.Not(r), z3.Or(z3.Not(shp), z3.And(inr(w), z3.Not(eq(w))))))
+    path.ghost.setdefault("array_equal_calls", []).append(dict(result=r, witness=w, a=ra, b=rb, shape_a=a.shape, shape_b=b.shape))
+    return r
+
+
 def _np_array_equal(interp, a, b):
     from .interp import Undecided
 
@@ -1573,7 +1894,7 @@ def _np_array_equal(interp, a, b):
         n = [concrete_int(s) for s in a.shape]
         m = [concrete_int(s) for s in b.shape]
         if None in n or None in m:
-            raise Undecided("array_equal on symbolic shapes")
+            return array_equal_symbolic(interp, a, b)
         if n != m:
             return False
         import itertools
@@ -1588,6 +1909,19 @@ def _np_all(interp, a, *args, **k):
 
     if isinstance(a, NDArr):
         n = [concrete_int(s) for s in a.shape]
+        if None in n and a.ndim == 1 and not args and not k:
+            # [A] np.all(v) for a vector of symbolic length: a fresh Bool r with  r -> forall k in range: v[k] != 0,
+            # not r -> v[w] == 0 for a witness w in range   (recorded in path.ghost['np_all_calls'])
+            used("np.all (1-D, symbolic length): r <-> forall k: v[k] != 0 (quantified / witness)")
+            path = interp.path
+            c = path.counter.get("npall", 0)
+            path.counter["npall"] = c + 1
+            r, w, kq = z3.Bool(f"all!{c}"), z3.Int(f"allw!{c}"), z3.Int(f"allk!{c}")
+            rd, L = a.reader(), to_z3(a.shape[0])
+            path.assume(z3.If(r, z3.ForAll([kq], z3.Implies(z3.And(kq >= 0, kq < L), as_int_term(rd(kq)) != 0)),
+                              z3.And(w >= 0, w < L, as_int_term(rd(w)) == 0)))
+            path.ghost.setdefault("np_all_calls", []).append(dict(result=r, witness=w, v=rd, length=L))
+            return r
         if None in n:
             raise Undecided("np.all on symbolic shape")
         import itertools
@@ -1602,6 +1936,18 @@ def _np_any(interp, a, *args, **k):
 
     if isinstance(a, NDArr):
         n = [concrete_int(s) for s in a.shape]
+        if None in n and a.ndim == 1 and not args and not k:
+            # [A] np.any(v) for a vector of symbolic length: a fresh Bool b with  b -> v[w] != 0 for a witness w in range,
+            # not b -> forall k in range: v[k] == 0   (exact characterisation, one quantified assumption)
+            used("np.any (1-D, symbolic length): b <-> exists k: v[k] != 0 (witness / quantified)")
+            path = interp.path
+            c = path.counter.get("npany", 0)
+            path.counter["npany"] = c + 1
+            b, w, kq = z3.Bool(f"any!{c}"), z3.Int(f"anyw!{c}"), z3.Int(f"anyk!{c}")
+            rd, L = a.reader(), to_z3(a.shape[0])
+            path.assume(z3.If(b, z3.And(w >= 0, w < L, as_int_term(rd(w)) != 0),
+                              z3.ForAll([kq], z3.Implies(z3.And(kq >= 0, kq < L), as_int_term(rd(kq)) == 0))))
+            return b
         if None in n:
             raise Undecided("np.any on symbolic shape")
         import itertools
@@ -1640,8 +1986,23 @@ def _np_split(interp, a, k):
     return [new_array((h2,), lambda i: rd(i), "split0"), new_array((h2,), lambda i: rd(i + h2), "split1")]
 
 
+def _np_abs(interp, x):
+    from .interp import Undecided
+
+    used("np.abs (scalar)")
+    if isinstance(x, NDArr):
+        rd = x.reader()
+        return new_array(x.shape, lambda *i: z3.If(as_int_term(rd(*i)) >= 0, as_int_term(rd(*i)), -as_int_term(rd(*i))), "abs")
+    if is_sym(x):
+        t = as_int_term(x)
+        return z3.If(t >= 0, t, -t)
+    if isinstance(x, (int, float)):
+        return abs(x)
+    raise Undecided("np.abs of " + type(x).__name__)
+
+
 NUMPY = {
-    "zeros": _np_zeros, "ones": _np_ones, "eye": _np_eye, "identity": _np_eye, "multiply": _np_multiply,
+    "abs": _np_abs, "absolute": _np_abs, "zeros": _np_zeros, "ones": _np_ones, "eye": _np_eye, "identity": _np_eye, "multiply": _np_multiply,
     "copy": _np_copy, "array": _np_array, "asarray": _np_array, "shape": _np_shape, "vstack": _np_vstack,
     "hstack": _np_hstack, "append": _np_append, "block": _np_block, "insert": _np_insert, "delete": _np_delete,
     "nonzero": _np_nonzero, "array_equal": _np_array_equal, "all": _np_all, "any": _np_any, "split": _np_split,
